@@ -88,7 +88,7 @@ impl Matrix {
         Matrix {
             n,
             m: n,
-            data: Vec::with_capacity(n * n),
+            data: vec![0.0; n * n],
             storage: MatrixStorage::Full,
         }
     }
